@@ -39,9 +39,11 @@ def run_case(rng, res, idx, tier):
     nsteps = rng.randint(1, 8)
     spec = dict(model_seed=rng.randrange(10 ** 6), data_seed=rng.randrange(10 ** 6), batch=rng.randint(1, 3), cfg=cfg,
                 history=[('train',)] * nsteps, record=['held'])
+    # the memory query (which flushes and waits) happens at the last boundary and at a random subset of the others
+    spec['held_steps'] = sorted({nsteps - 1} | {t for t in range(nsteps) if rng.random() < 0.4})
     policy = simdist.POLICIES[idx % len(simdist.POLICIES)]
     case = dict(idx=idx, W=W, k=k, cfg=cfg, steps=nsteps, policy=policy)
-    run = scenario.run(spec, W, seed=rng.randrange(10 ** 6), policy=policy)
+    run = scenario.run(spec, W, seed=rng.randrange(10 ** 6), policy=policy, stress=(idx % 5 == 0), deliver_prob=rng.choice([0.05, 0.3, 0.6, 1.0]))
     if run.inconclusive:
         res.inconclusive.append('simulator watchdog fired')
         return
@@ -62,6 +64,8 @@ def run_case(rng, res, idx, tier):
     # ---- (1) held tensors
     for r in range(W):
         for st in range(nsteps):
+            if recs[r]['held'][st] is None:
+                continue
             total_rep = 0
             for n in names:
                 h = recs[r]['held'][st][n]
